@@ -185,6 +185,10 @@ class Sender:
             OutOfOrderSequenceNumber,
             TransactionalIdAuthorizationFailed,
         ):
+            # Fatal: nothing more may be written. Requests of tasks that are
+            # still running (say, waiting for a coordinator lookup) included.
+            for task in tasks:
+                task.cancel()
             raise
         except Exception as exc:  # pragma: no cover
             log.exception("Unexpected error in sender routine")
@@ -810,6 +814,7 @@ class SendProduceReqHandler(BaseHandler):
             await self._client._maybe_wait_metadata()
 
     def handle_response(self, response):
+        fatal_error = None
         for topic, partitions in response.topics:
             for partition_info in partitions:
                 global_error = None
@@ -867,6 +872,8 @@ class SendProduceReqHandler(BaseHandler):
                     else:
                         exc = error()
                     batch.failure(exception=exc)
+                    if isinstance(exc, ProducerFenced | OutOfOrderSequenceNumber):
+                        fatal_error = exc
                 else:
                     log.warning(
                         "Got error produce response on topic-partition"
@@ -878,6 +885,11 @@ class SendProduceReqHandler(BaseHandler):
                     if getattr(error, "invalid_metadata", False):
                         self._client.force_metadata_update()
                     self._to_reenqueue.append(batch)
+        if fatal_error is not None:
+            # Fencing and sequence violations are fatal for the producer, same
+            # as when a transaction coordinator reports them: stop the sender,
+            # which fails everything pending and the transaction manager
+            raise fatal_error
 
     def handle_error(self):
         return self._default_backoff
